@@ -8,8 +8,10 @@ from appsweep import *
 
 
 def bounds(t):
-    if t == 'quick': return dict(target_cap=4, content_cap=2, methods=['GET'], entries=['execute', 'legacy'], ranges=['none'], first=['slash'])
-    return dict(target_cap=6, content_cap=2, methods=['GET', 'HEAD', 'OPTIONS', 'POST'], entries=['execute', 'legacy'], ranges=['none', 'open'], first=['slash', 'other'], other_cap=3)
+    if t == 'quick': return dict(target_cap=4, content_cap=2, methods=['GET'], entries=['execute', 'legacy'], ranges=['none'], first=['slash'],
+                                 grammar=dict(methods=['GET'], ranges=['none'], leads=['/', ''], nsegs=[1, 2], tails=['']))
+    return dict(target_cap=6, content_cap=2, methods=['GET', 'HEAD', 'OPTIONS', 'POST'], entries=['execute', 'legacy'], ranges=['none', 'open'], first=['slash', 'other'], other_cap=3,
+                grammar=dict(methods=['GET', 'HEAD'], ranges=['none', 'open'], leads=['/', '', '//h/', 'http://h/'], nsegs=[1, 2, 3], tails=['', '/', '?a', '#a']))
 
 
 def case(prog, params):
@@ -80,7 +82,7 @@ def replay_native(oracle, w):
 def main():
     chk = H.Check('C01', 'requests cannot read files outside the served directory')
     prog = chk.load()
-    B = bounds(chk.tier); chk.bounds = dict(B, target_alphabet='0x21-0x7e', root='/r (model) / temp tree (replay)')
+    B = bounds(chk.tier); chk.bounds = dict(B, target_alphabet='0x21-0x7e', root='/r (model) / temp tree (replay)', segment_words=[w.decode() for w in SEGMENT_WORDS])
     lem = lemmas.lemma_filter_string(prog, 5 if chk.tier == 'quick' else 6)
     chk.extra['lemmas'] = [lem]
     if not lem['ok']: chk.inconclusive.append({'status': 'lemma-failed', 'error': str(lem)})
@@ -96,6 +98,19 @@ def main():
                     for first in B['first']:
                         if first == 'other' and n > B.get('other_cap', 99): continue
                         cases.append(dict(entry=entry, method=m, range=rg, tlen=n, first=first))
+    # grammar family (the statement's quantifier): lead + segments drawn from SEGMENT_WORDS (dot segments, names, encoded dots and
+    # separators in both hex cases, mixed and double-encoded forms), one case per tuple of segment lengths
+    import itertools
+    G = B['grammar']
+    for entry in B['entries']:
+        for m in G['methods']:
+            for rg in G['ranges']:
+                for lead in G['leads']:
+                    for nseg in G['nsegs']:
+                        if nseg >= 3 and (m != 'GET' or rg != 'none'): continue
+                        for lens in itertools.product(range(0, 7), repeat=nseg):
+                            for tail in (G['tails'] if nseg < 3 else ['']):
+                                cases.append(dict(entry=entry, method=m, range=rg, segs=list(lens), lead=lead, tail=tail))
     for c in cases[::7]: c['sample'] = True
     results = chk.run_cases(case, cases, label='request sweep')
     reads = sum(r.get('reads', 0) for r in results)
